@@ -7,8 +7,9 @@ def line_op(data):
         data = data.encode("utf-8")
     return "line " + data.hex() if data else "line"
 
-def seg(lines):
-    return ["seg"] + [line_op(l) for l in lines] + ["end"]
+def seg(lines, nolf=False):
+    """one file / feed of these lines, each followed by a line feed (nolf: all but the last)"""
+    return ["seg"] + [line_op(l) for l in lines] + ["endnolf" if nolf else "end"]
 
 def cfg_op(**kw):
     parts = []
